@@ -39,7 +39,7 @@ TYPES = [None, 'NONE', 'OBJECTIVE', 'CONSTRAINT', 'OBJ_OR_CON']
 
 def instances(tier, seed):
     out = []
-    for perm, has_dir, has_ref, ty in itertools.product((True, False, 'nested'), (True, False), (True, False), TYPES):
+    for perm, has_dir, has_ref, ty in itertools.product((True, False, 'nested', 'shared'), (True, False), (True, False), TYPES):
         out.append(dict(label=f'classify perm={perm} dir={has_dir} ref={has_ref} type={ty}', kind='classify',
                         perm=perm, has_dir=has_dir, has_ref=has_ref, type=ty))
     for arch in (0, 1):
@@ -49,6 +49,10 @@ def instances(tier, seed):
     for a1, a2 in itertools.product((0, 1), repeat=2):
         out.append(dict(label=f'evaluate_twice arch {a1} then {a2} (one evaluator)', kind='evaluate_seq', archs=[a1, a2]))
     out.append(dict(label='order_stable', kind='order'))
+    for has_dir, has_ref, ty in itertools.product((True, False), (True, False), TYPES):
+        for order in (['full', 'sub'], ['sub', 'full']):
+            out.append(dict(label=f'classify_twice dir={has_dir} ref={has_ref} type={ty} {"->".join(order)}', kind='classify_twice',
+                            has_dir=has_dir, has_ref=has_ref, type=ty, order=order))
     # several metric nodes at once: every configuration (first by name) next to representative second nodes, and back
     cfgs = [dict(perm=pm, has_dir=hd, has_ref=hr, type=ty)
             for pm, hd, hr, ty in itertools.product((True, False), (True, False), (True, False), TYPES)]
@@ -99,6 +103,10 @@ def _mk_classify_graph(perm, d, r, ty):
         x, y = NamedNode('X'), NamedNode('Y')
         g.add_edges([(a, x), (x, m)])
         g.add_selection_choice('C1', b, [x, y])
+    elif perm == 'shared':
+        # under a node that the start node derives directly AND option B derives as well: permanent
+        x = NamedNode('X')
+        g.add_edges([(root, x), (b, x), (x, m)])
     else:
         g.add_edges([(root if perm else b, m)])
     g = g.set_start_nodes({root})
@@ -126,7 +134,7 @@ def _expected(perm, has_dir, has_ref, ty):
     """documented contract -> 'obj' | 'con' | 'none' | 'error'"""
     if ty == 'NONE':
         return 'none'
-    can_obj = has_dir and perm is True
+    can_obj = has_dir and perm in (True, 'shared')
     can_con = has_dir and has_ref
     if can_obj and can_con:
         if ty == 'OBJECTIVE':
@@ -391,6 +399,82 @@ def _multi_native(nodes, dv, rv, graph=None):
     return _multi_outcome(nodes, [num(d) if d is not None else None for d in dv], [float(num(r)) if r is not None else None for r in rv], graph)
 
 
+def _twice_outcome(d, r, ty, order):
+    """one metric node under option B of a choice; a processor on the whole design space (M conditional) and one on the
+    sub design space in which B has been chosen (M permanent) are built one after the other on the same node objects"""
+    from adsg_core import BasicDSG, NamedNode, MetricNode, DSGEvaluator
+    g = BasicDSG()
+    root, a, b = NamedNode('R'), NamedNode('A'), NamedNode('B')
+    m = MetricNode('M', direction=d, ref=r, type_=_mtype(ty))
+    c = g.add_selection_choice('C', root, [a, b])
+    g.add_edges([(b, m)])
+    # a second choice keeps the sub design space a design space
+    g.add_selection_choice('C2', root, [NamedNode('X0'), NamedNode('X1')])
+    g = g.set_start_nodes({root})
+    sub = g.get_for_apply_selection_choice(c, b)
+    out = {}
+    for which in order:
+        ev = DSGEvaluator(g if which == 'full' else sub)
+        try:
+            objs, cons = ev.objectives, ev.constraints
+            out[which] = ('ok', [(0, o.sign) for o in objs if o.node is m], [(0, c_.sign, c_.ref) for c_ in cons if c_.node is m],
+                          len(objs)+len(cons))
+        except RuntimeError:
+            out[which] = ('error', None, None, 0)
+    return out['full'], out['sub']
+
+
+def _run_classify_twice(inst, res):
+    has_dir, has_ref, ty, order = inst['has_dir'], inst['has_ref'], inst['type'], inst['order']
+    d = sym_int('dir') if has_dir else None
+    r = sym_real('ref') if has_ref else None
+    ex = explore(lambda: _twice_outcome(d, r, ty, order))
+    absorb(res, ex)
+    if not ex.complete:
+        res['status'] = INCONCLUSIVE
+        res['notes'].append(ex.status)
+        return
+    require_exhaustive(res, ex)
+    want = dict(full=_expected(False, has_dir, has_ref, ty), sub=_expected(True, has_dir, has_ref, ty))
+    cfg = dict(has_dir=has_dir, has_ref=has_ref, type=ty, order=order)
+    for p in ex.paths:
+        res['obligations'] += 1
+        s_ = z3.Solver()
+        s_.add(p.cond())
+        s_.check()
+        mdl = s_.model()
+        dv = model_int(mdl, d) if has_dir else None
+        rv = model_int(mdl, r) if has_ref else None
+        if p.kind == 'exc':
+            _viol(res, 'classify_twice', dict(kind='raises', **cfg), cfg, dict(dir=dv, ref=rv), repr(p.exc), want)
+            continue
+        bad = []
+        for which, (status, objs, cons, n_all) in zip(('full', 'sub'), p.value):
+            got = 'error' if status == 'error' else ('obj' if objs else ('con' if cons else 'none'))
+            if got != want[which]:
+                bad.append(f'{which} design space: role {got}, contract says {want[which]}')
+            elif status == 'ok' and n_all > 1:
+                bad.append(f'{which}: used twice')
+            elif got in ('obj', 'con'):
+                sign = (objs or cons)[0][1]
+                claim = (d.e <= 0) == z3.BoolVal(sign == -1)
+                if got == 'con':
+                    claim = z3.And(claim, z3val(cons[0][2]) == r.e)
+                s2 = z3.Solver()
+                s2.add(p.cond(), z3.Not(claim))
+                if str(s2.check()) != 'unsat':
+                    bad.append(f'{which}: sign / reference do not follow the node')
+        if bad:
+            def num(x):
+                return x['float'] if isinstance(x, dict) else x
+            nat = _twice_outcome(num(dv) if dv is not None else None, float(num(rv)) if rv is not None else None, ty, order)
+            _viol(res, 'classify_twice', dict(kind='contract', **cfg), cfg, dict(dir=dv, ref=rv), dict(symbolic=bad, native=repr(nat)), want)
+        else:
+            res['discharged'] += 1
+        res['validated'] += 1
+    res['sample'] = dict(harness=inst['label'], expected=want, paths=len(ex.paths))
+
+
 def _mk_eval_graph(refs):
     """R -> MO (objective, permanent), R -> MC (constraint, permanent), B -> MK (constraint, conditional: option B)"""
     from adsg_core import BasicDSG, NamedNode, MetricNode, MetricType
@@ -413,7 +497,8 @@ def _run_evaluate(inst, res):
     stale = [sym_real('s_o'), sym_real('s_c'), sym_real('s_k')]
     prestore = bool(inst.get('prestore'))
     n_obl = 0
-    for behaviour in itertools.product(('given', 'missing', 'nan'), repeat=3):
+    for behaviour in itertools.product(('given', 'missing', 'nan', 'always'), repeat=3):
+        # 'always': the evaluator answers for this metric node even when it is not among the nodes it was asked for
         def run():
             g, choice, opts, metrics = _mk_eval_graph(refs)
             if prestore:  # values left on the design space graph by earlier use: instances inherit the dict
@@ -424,6 +509,8 @@ def _run_evaluate(inst, res):
                 def _evaluate(self, dsg, metric_nodes):
                     out = {}
                     for i, m in enumerate(metrics):
+                        if behaviour[i] == 'always':
+                            out[m] = vals[i]
                         if m not in metric_nodes:
                             continue
                         if behaviour[i] == 'given':
@@ -447,7 +534,7 @@ def _run_evaluate(inst, res):
         present = [True, True, arch == 1]
 
         def want(i):
-            if behaviour[i] == 'given':
+            if behaviour[i] in ('given', 'always'):
                 return vals[i]
             return math.nan
         problems = []
@@ -483,7 +570,7 @@ def _run_evaluate(inst, res):
     if repr(nat) != repr(want_nat):
         _viol(res, 'evaluate', dict(kind='evaluate_native', arch=arch, prestore=prestore), dict(arch=arch, prestore=prestore),
               dict(behaviour=['given', 'missing', 'nan']), repr(nat), repr(want_nat))
-    res['sample'] = dict(harness=inst['label'], behaviours=27, value_obligations=n_obl)
+    res['sample'] = dict(harness=inst['label'], behaviours=64, value_obligations=n_obl)
 
 
 def _val_ok(got, w):
@@ -695,6 +782,8 @@ def _evaluate_native(arch, behaviour, refs, vals, prestore=False):
         def _evaluate(self, dsg, metric_nodes):
             out = {}
             for i, m in enumerate(metrics):
+                if behaviour[i] == 'always':
+                    out[m] = vals[i]
                 if m not in metric_nodes:
                     continue
                 if behaviour[i] == 'given':
@@ -772,7 +861,7 @@ def replay(rec):
         arch = cfg['arch']
         beh = inp['behaviour']
         nat = _evaluate_native(arch, beh, [1.5, -2.25], [3., 4., 5.], prestore=bool(cfg.get('prestore')))
-        w = lambda i: [3., 4., 5.][i] if beh[i] == 'given' else math.nan  # noqa
+        w = lambda i: [3., 4., 5.][i] if beh[i] in ('given', 'always') else math.nan  # noqa
         want = ([w(0)], [w(1), w(2) if arch == 1 else -2.25])
         print('evaluate ->', nat, 'expected', want)
         return repr(nat) != repr(want)
@@ -785,6 +874,15 @@ def replay(rec):
                 print('first result after second call', v['first'], 'snapshot', v['snap'], 'base graph values', v['base'])
                 return True
         return bool(probs)
+    if a['check'] == 'classify_twice':
+        def num(x):
+            return x['float'] if isinstance(x, dict) else x
+        d_, r_ = inp.get('dir'), inp.get('ref')
+        nat = _twice_outcome(num(d_) if d_ is not None else None, float(num(r_)) if r_ is not None else None, cfg['type'], cfg['order'])
+        want = dict(full=_expected(False, cfg['has_dir'], cfg['has_ref'], cfg['type']), sub=_expected(True, cfg['has_dir'], cfg['has_ref'], cfg['type']))
+        roles = {w: ('error' if o[0] == 'error' else ('obj' if o[1] else ('con' if o[2] else 'none'))) for w, o in zip(('full', 'sub'), nat)}
+        print(f'order {cfg["order"]}: library -> {roles}; contract -> {want}')
+        return roles != want
     if a['check'] == 'evaluate_rnd':
         r2 = new_result('replay')
         _run_evaluate_rnd(dict(label='replay', template=cfg['template']), r2)
